@@ -1,0 +1,39 @@
+//go:build verif
+
+// Copyright 2026 The Scriggo Authors. All rights reserved.
+// Use of this source code is governed by a BSD-style
+// license that can be found in the LICENSE file.
+
+// Package c27 is a verification bridge (build tag "verif") that exposes the
+// real expression parser, lexer and source parsers of internal/compiler to
+// the external correspondence harness of property C27. It adds no behaviour.
+package c27
+
+import (
+	"github.com/open2b/scriggo/ast"
+	"github.com/open2b/scriggo/internal/compiler"
+)
+
+// ParseExpr parses src as a single expression with the real parseExpr, with
+// the template lexer (as the content of "{{ src }}") if template is true,
+// otherwise with the program lexer.
+func ParseExpr(src string, template bool) (ast.Expression, error) {
+	return compiler.VerifC27ParseExpr(src, template)
+}
+
+// Tokens returns the type names and texts of the tokens the real lexer
+// produces for the expression source src.
+func Tokens(src string, template bool) (types []string, texts []string, err error) {
+	return compiler.VerifC27Tokens(src, template)
+}
+
+// ParseProgramSource parses a program source with the real parser.
+func ParseProgramSource(src []byte, noPackage bool) (*ast.Tree, error) {
+	return compiler.VerifC27ParseProgramSource(src, noPackage)
+}
+
+// ParseTemplateSource parses an unexpanded template source with the real
+// parser.
+func ParseTemplateSource(src []byte, format ast.Format) (*ast.Tree, error) {
+	return compiler.VerifC27ParseTemplateSource(src, format)
+}
